@@ -153,6 +153,18 @@ def run_case(concepts, case, spec):
     budget = 1100 if spec['tier'] == 'thorough' else 300
     _drive_axis(ctx, ctx.intension, ctx.objects, rng, spec, budget)
     _drive_axis(ctx, ctx.extension, ctx.properties, rng, spec, budget)
+    # the caller reuses one mutable argument object, editing it between consecutive calls
+    for fn, items in ((ctx.intension, list(ctx.objects)), (ctx.extension, list(ctx.properties))):
+        arg = rng.sample(items, rng.randint(0, min(len(items), 4)))
+        for _ in range(4):
+            call(fn, arg)
+            if arg and rng.random() < .5:
+                arg.pop(rng.randrange(len(arg)))
+            else:
+                arg.append(rng.choice(items))
+            if rng.random() < .3:
+                arg.reverse()
+        COL.count('mutated_argument_sequences')
     # session: an older live context (often with the very same labels) is queried
     # again after the new one was built: class-level state must not leak across.
     old = POOL.older(rng)
